@@ -204,3 +204,45 @@ impl AccessRig {
     }
   }
 }
+
+// Strengthening round (add-only): the same public entrance with the configuration values
+// given as complete URIs, so that documents can be handed over in memory (`data:`) as well
+// as in files (`file:`).
+impl AccessRig {
+  /// The public validate_local_permissions; every argument is a full URI (`file:..` | `data:..`).
+  pub fn validate_local_uris(
+    &mut self,
+    permissions_ca_uri: &str,
+    governance_uri: &str,
+    permissions_uri: &str,
+    identity_cert_uri: &str,
+    domain_id: u16,
+  ) -> Result<u32, String> {
+    let prop = |name: &str, uri: &str| Property {
+      name: name.to_string(),
+      value: uri.to_string(),
+      propagate: false,
+    };
+    let qos: QosPolicies = QosPolicyBuilder::new()
+      .property(policy::Property {
+        value: vec![
+          prop("dds.sec.access.permissions_ca", permissions_ca_uri),
+          prop("dds.sec.access.governance", governance_uri),
+          prop("dds.sec.access.permissions", permissions_uri),
+          prop("dds.sec.auth.identity_certificate", identity_cert_uri),
+        ],
+        binary_value: vec![],
+      })
+      .build();
+    let id = self.next_identity;
+    self.next_identity += 1;
+    let (ac, auth) = (&mut self.ac, &self.auth);
+    match catch_unwind(AssertUnwindSafe(|| {
+      ac.validate_local_permissions(auth, id, domain_id, &qos)
+    })) {
+      Ok(Ok(h)) => Ok(h),
+      Ok(Err(e)) => Err(format!("{e:?}")),
+      Err(_) => Err("panic".to_string()),
+    }
+  }
+}
